@@ -128,8 +128,9 @@ pub fn oligo_big(seed: u64, scale: u64, dir: &str) {
     let mut rng = Rng::new(seed);
     let m = 1_000_000u64;
     let plans: Vec<Vec<(u8, u64)>> = vec![
-        // more than 2^24 = 16 777 216 windows in one record; one k-mer far beyond 2^16 and 2^23 occurrences
-        vec![(0, 9 * m * scale + rng.below(1000)), (1, 5 * m + rng.below(1000)), (4, 8 + rng.below(5)), (2, 2 * m + 900_000 + rng.below(1000)), (3, 70_000 + rng.below(1000)), (0, 8)],
+        // more than 2^24 = 16 777 216 windows in one record; one canonical k-mer more than 2^24 times
+        // (A..A and T..T are one canonical k-mer: 12 + 5.5 million occurrences, more than 2^24)
+        vec![(0, 12 * m * scale + rng.below(1000)), (1, m + rng.below(1000)), (4, 8 + rng.below(5)), (3, 5 * m + 500_000 + rng.below(1000)), (2, 70_000 + rng.below(1000)), (0, 8)],
         // a little more than 2^16 letters, and a second record after it
         vec![(3, 40_000 + rng.below(100)), (1, 25_600 + rng.below(100)), (2, 9 + rng.below(30))],
         vec![(1, 8), (0, 8 + rng.below(4)), (4, 8), (2, 11)],
@@ -190,6 +191,29 @@ pub fn oligo_big(seed: u64, scale: u64, dir: &str) {
             let _ = std::fs::remove_file(&out);
         }
     }
+    // the same records through the k-mer CGR writer (its frequencies are the oligo values of the columns)
+    if scale > 0 {
+        for (k, norm) in [(2usize, true), (4, false)] {
+            let out = format!("{}/tr_obig_cgr_{}.out", dir, k);
+            let mut c = OligoCgrComputer::new(inp.clone(), out.clone(), k, 16);
+            c.set_threads(2);
+            c.set_norm(norm);
+            c.vectorise().unwrap();
+            let lines = lines_of(&out);
+            for (i, p) in plans.iter().enumerate() {
+                let (row, n) = match lines.get(i).and_then(|l| parse_points(l, 3)) {
+                    Some(pts) => {
+                        let toks: Vec<String> = pts.iter().map(|v| if norm { format!("{:.6}", v[2]) } else { format!("{}", v[2]) }).collect();
+                        sparse_row(&toks.join(" "), " ", norm)
+                    }
+                    None => (vec![-1, -1], 0),
+                };
+                let rle: Vec<Vec<u64>> = p.iter().map(|&(c, n)| vec![c as u64, n]).collect();
+                println!("{}", json!({"ev":"obig","src":"lib-cgr","k":k,"norm": if norm {1} else {0},"rle":rle,"ncols":n,"row":row}));
+            }
+            let _ = std::fs::remove_file(&out);
+        }
+    }
     let _ = std::fs::remove_file(&inp);
     println!("{}", json!({"ev":"eof"}));
 }
@@ -215,7 +239,8 @@ pub fn cgr_event(bytes: &[u8], size: u64, res: Option<&Vec<(f64, f64)>>, src: &s
         None => println!("{}", json!({"ev":"cgr","src":src,"s":size,"bytes":bytes,"err":1,"npts":0,"nexact":0,"pts":[],"tops":[]})),
         Some(pts) => {
             let n = pts.len();
-            let nexact = n.min(29);
+            // points are exact doubles while size * numerator fits 53 bits: bitlen(size) + (i + 1) <= 53
+            let nexact = n.min(29).min(52 - (64 - size.leading_zeros()) as usize);
             let mut flat: Vec<i64> = Vec::new();
             for (i, (x, y)) in pts.iter().take(nexact).enumerate() {
                 let b = (i + 2) as u32;
@@ -259,7 +284,8 @@ fn gen_cgr_seq(rng: &mut Rng, i: usize, maxlen: usize) -> Vec<u8> {
     s
 }
 
-const SIZES: [u64; 6] = [1, 2, 3, 8, 1000, 1 << 20];
+// (the last two have more significant bits than a single-precision float holds)
+const SIZES: [u64; 8] = [1, 2, 3, 8, 1000, 1 << 20, 16_777_217, 1_000_000_007];
 
 /// trace cgr <seed> <n> <maxlen>: CgrComputer::vectorise_one through the library
 pub fn cgr(seed: u64, n: usize, maxlen: usize) {
